@@ -1,6 +1,6 @@
 CHECK = dict(
     engine="loop", design_ref="4 / the connection and event-loop model (C02)",
-    text="""Coq theorem outbound_ok over every input stream: kernel-accepted bytes are the front of the submitted-unhanded stream in submission order, OutboundBuffered matches; plus replay of real engine traces and the peer-side receive oracle (incl. stuck-output detection).""",
+    text="""Coq theorem outbound_ok over every input stream: kernel-accepted bytes are the front of the submitted-unhanded stream in submission order, OutboundBuffered matches; theorem out_progress_ok: whenever the loop goes back to waiting, a connection with buffered output has its write interest registered (LT) or is owed an edge / has a write task queued (ET); conn.processIO regenerated from the source and proved equal to the model's dispatch (genloop); plus replay of real engine traces and the peer-side receive oracle (incl. stuck-output detection).""",
     note="Proof is about the hand-written model coq/Model/Loop.v (kernel, handler and other goroutines are universally quantified inputs); "
          "the tie to /repo is the per-run trace correspondence through the vunix shim. Kernel stream semantics assumed (monitors in the model state the contract). Runs cover the default, gc_opt and poll_opt builds, server and client side, 1-4 loops (loop 0 modelled, the others judged by the direct oracles).",
     technique="Coq invariant proofs over a big-step interpreter of the event loop + executable trace checkers + differential replay of real engine runs",
